@@ -12,7 +12,10 @@ Import ListNotations.
    every weakly fair schedule (rounds, each scheduling every thread at least once; this is
    the ONLY assumption on the scheduler, and none is made on the order in which sc.mu is
    granted: a released lock goes to whichever blocked or arriving thread runs next) of
-   fuel_bound rounds completes all calls with their solo results *)
+   fuel_bound rounds completes all calls with their solo results;
+   and beyond the shape of the results: all calls on a type are handed the same schema
+   object, and an object that has been handed out unfolds to its type at every depth at every
+   later point of the run (completely linked, never modified again) *)
 Definition C10_logic_statement (d : disc) : Prop :=
   forall k g calls, calls_ok calls ->
     (forall sched t, exists j, nth t (results (run d k g calls sched)) [] =
@@ -21,7 +24,11 @@ Definition C10_logic_statement (d : disc) : Prop :=
        exists t, t < length calls /\ gstep d k g t (run d k g calls sched) <> run d k g calls sched) /\
     (forall rounds, weakly_fair (length calls) rounds -> fuel_bound g calls <= length rounds ->
        all_done (run d k g calls (concat rounds)) = true /\
-       results (run d k g calls (concat rounds)) = map (map (result_solo k g)) calls).
+       results (run d k g calls (concat rounds)) = map (map (result_solo k g)) calls) /\
+    (forall sched t1 t2 n c1 c2,
+       In (t1, n, c1) (rets d k g calls sched) -> In (t2, n, c2) (rets d k g calls sched) -> c1 = c2) /\
+    (forall sched t n c, In (t, n, c) (rets d k g calls sched) ->
+       forall later dd, unfold dd (heap (s_sh (run d k g calls (sched ++ later)))) c = gunfold dd g n).
 
 (* memory level: the accesses of any run — to sc.packages, to the Schemas map of every package
    (for every assignment pk of type names to packages), to SchemaCache.registered,
